@@ -83,7 +83,7 @@ theorem serial_later_skip (s : Str) (hne : s ≠ []) (strict : Bool) (name : Str
 theorem init_number (s : Str) (hne : s ≠ []) (strict : Bool) :
     init Serial.cls [("number".toList, some s)] strict = .ok (objNumber s) := by
   have hv : validateFormat [("number".toList, some s)] = .ok [("number".toList, some s)] := by
-    simp [validateFormat, List.foldlM, splitFirst, splitOn, splitGo, alookup, bind, Except.bind, pure, Except.pure]
+    simp [validateFormat, validateStep, List.foldlM, splitFirst, splitOn, splitGo, alookup, bind, Except.bind, pure, Except.pure]
   unfold init
   simp only [hv, bind, Except.bind, serial_o0, serial_baseLevel, priorityLoop, serial_priorities]
   -- entry 1: `number` is converted and stored
